@@ -1,40 +1,15 @@
-use fidget_core::context::Context;
-use fidget_core::eval::{Function, MathFunction, TracingEvaluator, BulkEvaluator};
-use fidget_core::types::Interval;
-use fidget_core::vm::VmFunction;
-use fidget_jit::JitFunction;
-fn run<F: MathFunction + Function<Trace = fidget_core::vm::VmTrace>>(name: &str) {
-    let mut ctx = Context::new();
-    let x = ctx.x();
-    let n10 = ctx.modulo(x, -2.0).unwrap();
-    let n9 = ctx.min(n10, 4.053116e-6).unwrap();
-    let n8 = ctx.max(x, 4.053116e-6).unwrap();
-    let n7 = ctx.max(x, -2.0).unwrap();
-    let n6 = ctx.min(x, f32::NEG_INFINITY).unwrap();
-    let n5 = ctx.and(n7, n6).unwrap();
-    let n4 = ctx.mul(n8, n5).unwrap();
-    let n3 = ctx.mul(n9, n4).unwrap();
-    let n1 = ctx.add(x, -2.0).unwrap();
-    let n0 = ctx.and(n3, n1).unwrap();
-    let f = F::new(&ctx, &[n0]).unwrap();
-    let p = [-9.939922e-7f32];
-    let iv = [Interval::new(-1e-6, 1.300009e-9)];
-    let t = f.point_tape(Default::default());
-    let mut e = F::new_point_eval();
-    let (o, _) = e.eval(&t, &p).unwrap();
-    println!("{name} parent point: {:?}", o);
-    let ti = f.interval_tape(Default::default());
-    let mut ie = F::new_interval_eval();
-    let (o, tr) = ie.eval(&ti, &iv).unwrap();
-    println!("{name} parent interval: {:?} trace {:?}", o, tr.map(|t| format!("{:?}", t.as_slice())));
-    let tr = tr.unwrap().clone();
-    let c = f.simplify(&tr, Default::default(), &mut Default::default()).unwrap();
-    let t = c.point_tape(Default::default());
-    let (o, _) = e.eval(&t, &p).unwrap();
-    println!("{name} child point: {:?}", o);
-    let t = c.float_slice_tape(Default::default());
-    let mut fe = F::new_float_slice_eval();
-    let o = fe.eval(&t, &[vec![p[0]; 3]]).unwrap();
-    println!("{name} child slice: {:?}", o[0].to_vec());
+use fv::build::*;
+use fv::spec::*;
+fn main() {
+    let txt = std::fs::read_to_string(std::env::args().nth(1).unwrap()).unwrap();
+    let v: serde_json::Value = serde_json::from_str(&txt).unwrap();
+    let dag: DagSpec = serde_json::from_value(v["case"]["shape"]["Dag"]["dag"].clone()).unwrap();
+    let b = build_dag(&dag);
+    let p: Vec<Fl> = std::env::args().skip(2).map(|s| Fl(s.parse::<f32>().unwrap())).collect();
+    let pm = point_map(&b.vars, &p);
+    let roots: Vec<_> = b.nodes.clone();
+    let vals = eval_all(&b.ctx, &roots, &pm);
+    for (i, n) in b.nodes.iter().enumerate() {
+        println!("{i}: {:?} = {:?}", b.ctx.get_op(*n).unwrap(), vals[n]);
+    }
 }
-fn main() { run::<VmFunction>("vm"); run::<JitFunction>("jit"); }
